@@ -42,7 +42,8 @@ def strip_last_char(t, what="-"):
         raise AnalysisError("token[:-1] applied to an empty abstract string")
     last = t[-1]
     if last[0] != "lit" or not last[1]:
-        raise AnalysisError(f"token[:-1] would cut into `{seg_text(last)}`: outside the template interpreter's model")
+        # the cut eats into a formatted field or a prefix: what remains is no token of the grammar; keep it visible as such
+        return t[:-1] + (("fld", f"TRUNCATED({seg_text(last)})", "!cut"),)
     rest = last[1][:-1]
     return t[:-1] + ((("lit", rest),) if rest else ())
 
@@ -197,11 +198,17 @@ class StringInterp(AbsInt):
             return frozenset(x + y for x in a for y in b)
         if isinstance(e, ast.Subscript) and isinstance(e.slice, ast.Slice) and e.slice.lower is None and e.slice.step is None \
                 and isinstance(e.slice.upper, ast.UnaryOp) and isinstance(e.slice.upper.op, ast.USub) and isinstance(e.slice.upper.operand, ast.Constant) \
-                and e.slice.upper.operand.value == 1:
+                and isinstance(e.slice.upper.operand.value, int) and 1 <= e.slice.upper.operand.value <= 8:
             a = self.strings(e.value, st)
             if a is None:
                 return None
-            return frozenset(strip_last_char(x) for x in a)
+            out = set()
+            for x in a:
+                for _ in range(e.slice.upper.operand.value):      # token[:-k] drops the last k characters
+                    if x:
+                        x = strip_last_char(x)
+                out.add(x)
+            return frozenset(out)
         if isinstance(e, ast.Call):
             recv, name = call_method(e)
             if recv is not None and name in ("rstrip", "removesuffix", "strip") and e.args and isinstance(e.args[0], ast.Constant) and e.args[0].value == "-":
